@@ -9,7 +9,7 @@ CONSTANT Rounds
 VARIABLES hist, done
 gvars == <<vars, hist, done>>
 
-CoordSeq == <<"S1A1", "S1B1", "S1C1", "S1D1", "S1A2", "S1B2", "S1C2", "S1D2", "S1E1", "S1F4", "S2A1", "S2B1", "S2C3">>
+CoordSeq == <<"S1A1", "S1B1", "S1C1", "S1D1", "S1A2", "S1B2", "S1C2", "S1D2", "S1E1", "S1F4", "S2A1", "S2B1", "S2C3", "S2D1">>
 Snap(o) == [vals |-> [i \in 1..Len(CoordSeq) |-> [c |-> CoordSeq[i], v |-> Ev(CoordSeq[i], o)]],
             grids |-> [s \in 1..2 |-> Grid(s, o)],
             sizes |-> [s \in 1..2 |-> SizeOf(s, o)]]
